@@ -622,9 +622,7 @@ def main(ctx):
             for de in OFFS:
                 sv_pts.append((dc, ce0 + de))
     sv_pts = dedupe(sv_pts)
-    sd_small = dedupe(list(BASE) + list(gen) + [p for c in [(0.0, 90.0), (0.0, -90.0)] + spoles
-                                                 for p in cap(c, DISTS[0::3], bearings)] + cut)
-    sd_pairs = ctx.pick(sd_small, sd_pts)
+    sd_pairs = sd_pts
     sunits = [("eq", tuple(ch)) for ch in chunks(sd_pts, 30)]
     sunits += [("sv", tuple(ch)) for ch in chunks(sv_pts, 30)]
     for form in ("ndarray", "list"):
@@ -763,9 +761,7 @@ def main(ctx):
         v = vec(LD(-NODE) + LD(d), 0.0)[:, 0].astype("f8")
         VECS.append((float(v[0]), float(v[1]), float(v[2])))
     VECS = dedupe(VECS)
-    xy_small = dedupe(list(BASE) + list(gen) + [p for c in [(0.0, 90.0), (0.0, -90.0)]
-                                                 for p in cap(c, DISTS[0::2], bearings)])
-    xy_pairs = ctx.pick(xy_small, xy_pts)
+    xy_pairs = xy_pts
     xunits = []
     for stomp in (False, True):
         xunits += [("eq", stomp, tuple(ch)) for ch in chunks(xy_pts, 30)]
